@@ -496,6 +496,16 @@ class C20:
         self.J = J
         J.ignore_sigtstp()
 
+        def aprod(args, stdin=None, stdout=None):
+            stdout.write("x\n")
+            return 0
+
+        def acons(args, stdin=None, stdout=None):
+            stdin.read()
+            return 0
+
+        self.XSH.aliases["aprod"], self.XSH.aliases["acons"] = aprod, acons
+
     @staticmethod
     def _pstate(pid):
         try:
@@ -579,9 +589,9 @@ class C20:
                 trace.append(step)
                 rec.count("real_steps")
                 size = len(mru)
-                if op in ("bg-start", "bg-pipeline"):
+                if op in ("bg-start", "bg-pipeline", "bg-alias-first", "bg-alias-last"):
                     before = table()[0]
-                    out = run("sleep 30 &" if op == "bg-start" else "sleep 30 | catrc 0 &")
+                    out = run({"bg-start": "sleep 30 &", "bg-pipeline": "sleep 30 | catrc 0 &", "bg-alias-first": "aprod | sleep 30 &", "bg-alias-last": "sleep 30 | acons &"}[op])
                     purge()
                     jobs_now, tasks_now = table()
                     new = sorted(n for n in jobs_now if before.get(n) != jobs_now[n])
@@ -590,10 +600,12 @@ class C20:
                     n = free()
                     if new != [n]:
                         return fail("NUMBERING/new-job-not-lowest-free-number", got=new, expected=n)
-                    m[n] = {"pids": jobs_now[n], "dead": False, "bg": True, "stopped": False}
+                    m[n] = {"pids": [p for p in jobs_now[n] if isinstance(p, int)], "dead": False, "bg": True, "stopped": False}
                     mru.insert(0, n)
                     rec.count("real_background_jobs_started")
-                    if any(self._pstate(p) in (None, "Z") for p in jobs_now[n]):
+                    if op.startswith("bg-alias"):
+                        rec.count("real_background_jobs_with_alias_stage")
+                    if not m[n]["pids"] or any(self._pstate(p) in (None, "Z") for p in m[n]["pids"]):
                         return fail("REAL/registered-job-has-no-live-process")
                 elif op == "suspend-start":
                     before = table()[0]
@@ -644,6 +656,10 @@ class C20:
                             pass
                     end = time.time() + 3
                     while time.time() < end and any(self._pstate(p) not in (None, "Z") for p in m[n]["pids"]):
+                        time.sleep(0.01)
+                    # an alias stage downstream sees EOF now and finishes on its own thread
+                    job = J.get_jobs().get(n)
+                    while time.time() < end and job is not None and type(job["obj"]).__name__.startswith("ProcProxy") and job["obj"].poll() is None:
                         time.sleep(0.01)
                     m[n]["dead"] = True
                     continue  # nothing purges here
@@ -730,7 +746,7 @@ class C20:
                     return fail("STRUCT/mru-deque-and-job-dict-disagree", where=op)
                 exp = [n for n in mru]
                 live_only = [n for n in tasks_now if n in m]
-                if op in ("bg-start", "bg-pipeline", "suspend-start", "jobs", "jobs-posix", "jobs-captured", "bg"):
+                if op in ("bg-start", "bg-pipeline", "bg-alias-first", "bg-alias-last", "suspend-start", "jobs", "jobs-posix", "jobs-captured", "bg"):
                     if tasks_now != exp:
                         return fail(f"TABLE-DIFFERS-FROM-MODEL/{op}", where=op)
                 elif live_only != exp or any(n not in m and J.get_jobs()[n]["obj"].poll() is None for n in tasks_now):
@@ -754,7 +770,7 @@ class C20:
                 for _ in range(sh["steps"]):
                     r = rng.random()
                     if r < 0.22:
-                        steps.append([rng.choice(["bg-start", "bg-start", "bg-pipeline"]), None])
+                        steps.append([rng.choice(["bg-start", "bg-start", "bg-pipeline", "bg-alias-first", "bg-alias-first"]), None])  # (alias-last: its thread waits for an EOF the shell itself withholds in the background - not a job-table matter)
                     elif r < 0.30:
                         steps.append(["suspend-start", None])
                     elif r < 0.38:
